@@ -288,6 +288,9 @@ class PhasePredictor(QTable):
                     coeffs += f.readline().translate(d2e).split()
 
                 coeffs = np.array(coeffs, dtype=np.float64)
+                if coeffs.size < 2:
+                    # A single coefficient (NCOEFF = 1) still gets the F0 term.
+                    coeffs = np.append(coeffs, 0.0)
                 coeffs[0] += float("0." + r_frac)
                 coeffs[1] += float(f0) * 60
 
